@@ -756,6 +756,13 @@ class C08Executor(readfile.ReadFileExecutor):
         cases = [z3.And([z3.BoolVal(True)] + list(s_.pc[base:]) + [self.truth(s_, v_).t]) for (s_, v_) in r]
         return [(st, VGen(vars_, z3.And(conds), z3.Or(cases)))]
 
+    def b_setattr(self, st, args, kwargs, node):
+        """setattr(obj, "<literal or loop-unrolled name>", value) is the attribute store obj.<name> = value."""
+        nm = args[1].const() if len(args) == 3 and isinstance(args[1], VStr) else None
+        if nm is None:
+            return self.havoc_call(st, "setattr", args, node)
+        return [(s_, NONE) for s_ in self.store_attr(st, args[0], nm, args[2], node)]
+
     def b_reversed(self, st, args, kwargs, node):
         if args and isinstance(args[0], VSeq):
             q = args[0]
